@@ -46,7 +46,9 @@ def build_reactor(layout, gap_model='flow', adiabatic=False):
         asms = {t: geninp.default_asm(**TYPES[t]) for t in names}
         assign = [(t, r, p, 'FLOWRATE=%g' % (0.3 + 0.05 * i)) for i, (t, r, p) in enumerate(LAYOUTS[layout])]
         inp = geninp.write_case(d, asms, assign, gap_model=gap_model, core_len=0.05)
-        r = dassh.Reactor(dassh.DASSH_Input(inp), path=os.path.join(d, 'out'), write_output=False)
+        from symx import npshim
+        with npshim.unpatched():
+            r = dassh.Reactor(dassh.DASSH_Input(inp), path=os.path.join(d, 'out'), write_output=False)
     finally:
         shutil.rmtree(d, ignore_errors=True)
     _CACHE[key] = r
